@@ -1,6 +1,339 @@
-//! C14: the three module resolvers on materialised directory trees (filled in below).
-use serde_json::Value;
+//! C14: the real module resolvers / collectors on materialised directory trees.
+//!
+//! The driver (lib/checks/c14.py) writes a layout below `root`; every generated file starts with a
+//! line `# @file <path relative to root>` so that a parsed module can be mapped back to its file
+//! through its own source text. Ops:
+//!
+//! `c14_run`  {root, entry, importer?, import_idx?, want:[..]} -> {obs:{..}} with, per `want`:
+//!   "cli"    `incan::cli::commands::collect_modules(entry)`: files in VISIT order (the function
+//!            returns them reversed), module names, path segments | err | panic/TIMEOUT
+//!   "lib"    `incan::frontend::resolver::ModuleResolver::resolve(entry)`: files in visit order
+//!   "col"    `incan::frontend::module::ModuleCollector::collect(entry)`: set of loaded files | errs
+//!   "shared" `incan::frontend::module::resolve_import_path(base, import)` for the import_idx-th
+//!            import declaration of `importer`, with base = directory of the importer and with
+//!            base = directory of the entry; plus the projection of every import of the importer
+//!   "check"  what `incan --check entry` does: collect_modules + TypeChecker::check_with_imports
+//!   "lsp"    the real language server: initialize, didOpen(entry); the dependency files it
+//!            publishes diagnostics for (in order = its visit order) and the entry's diagnostics
+//! `c14_parse_import` {src} -> projection of the import declarations of `src` (real parser)
+//!
+//! Every call into the code under test is guarded (panic, wall-clock limit): both are data.
+//! After the first TIMEOUT in this process further c14 ops answer `{"skipped_after_timeout":true}`
+//! (the leaked thread may spin and allocate; the driver starts a new process).
 
-pub fn dispatch(_op: &str, _req: &Value) -> Option<Value> {
-    None
+use crate::project;
+use crate::{guarded_timeout, panic_json};
+use futures::stream::StreamExt;
+use incan::frontend::typechecker::TypeChecker;
+use incan_syntax::ast::{Declaration, ImportDecl, Program};
+use incan_syntax::{lexer, parser};
+use serde_json::{json, Map, Value};
+use std::future::Future;
+use std::path::{Path, PathBuf};
+use std::pin::Pin;
+use std::sync::atomic::{AtomicBool, Ordering};
+use std::sync::Arc;
+use std::task::{Context, Poll, Wake, Waker};
+use tower_lsp::jsonrpc::{Request, Response};
+use tower_lsp::{ClientSocket, LspService};
+use tower_service::Service;
+
+const LIMIT_MS: u64 = 4_000;
+static TIMED_OUT: AtomicBool = AtomicBool::new(false);
+
+fn file_id(source: &str) -> String {
+    for line in source.lines().take(3) {
+        if let Some(rest) = line.strip_prefix("# @file ") {
+            return rest.trim().to_string();
+        }
+    }
+    "?".to_string()
+}
+
+fn rel(root: &Path, p: &Path) -> String {
+    match p.strip_prefix(root) {
+        Ok(r) => r.to_string_lossy().to_string(),
+        Err(_) => format!("OUTSIDE:{}", p.display()),
+    }
+}
+
+fn parse_file(p: &Path) -> Result<Program, String> {
+    let src = std::fs::read_to_string(p).map_err(|e| format!("read {}: {e}", p.display()))?;
+    let toks = lexer::lex(&src).map_err(|e| format!("lex {}: {:?}", p.display(), e.first().map(|x| x.message.clone())))?;
+    parser::parse(&toks).map_err(|e| format!("parse {}: {:?}", p.display(), e.first().map(|x| x.message.clone())))
+}
+
+fn imports_of(ast: &Program) -> Vec<ImportDecl> {
+    ast.declarations
+        .iter()
+        .filter_map(|d| match &d.node {
+            Declaration::Import(i) => Some(i.clone()),
+            _ => None,
+        })
+        .collect()
+}
+
+fn wrap(r: Result<Value, (String, String)>) -> Value {
+    match r {
+        Ok(v) => v,
+        Err(e) => {
+            if e.0 == "TIMEOUT" {
+                TIMED_OUT.store(true, Ordering::SeqCst);
+            }
+            panic_json(e)
+        }
+    }
+}
+
+fn run_cli(entry: String) -> Value {
+    wrap(guarded_timeout(LIMIT_MS, move || match incan::cli::commands::collect_modules(&entry) {
+        Ok(mods) => {
+            // collect_modules reverses the visit order before returning
+            let visited: Vec<String> = mods.iter().rev().map(|m| file_id(&m.source)).collect();
+            let names: Vec<String> = mods.iter().rev().map(|m| m.name.clone()).collect();
+            let segs: Vec<Vec<String>> = mods.iter().rev().map(|m| m.path_segments.clone()).collect();
+            json!({"ok": true, "visited": visited, "names": names, "segs": segs})
+        }
+        Err(e) => json!({"ok": false, "err": e.message}),
+    }))
+}
+
+fn run_lib(entry: String) -> Value {
+    wrap(guarded_timeout(LIMIT_MS, move || {
+        let mut r = incan::frontend::resolver::ModuleResolver::new();
+        match r.resolve(&entry) {
+            Ok(mods) => {
+                let visited: Vec<String> = mods.iter().map(|m| file_id(&m.source)).collect();
+                let names: Vec<String> = mods.iter().map(|m| m.name.clone()).collect();
+                json!({"ok": true, "visited": visited, "names": names})
+            }
+            Err(e) => json!({"ok": false, "err": format!("{e}")}),
+        }
+    }))
+}
+
+fn run_col(entry: String) -> Value {
+    wrap(guarded_timeout(LIMIT_MS, move || {
+        let p = PathBuf::from(&entry);
+        let mut c = incan::frontend::module::ModuleCollector::new(&p);
+        match c.collect(&p) {
+            Ok(mods) => {
+                let mut loaded: Vec<String> = mods.iter().map(|m| file_id(&m.source)).collect();
+                loaded.sort();
+                json!({"ok": true, "loaded": loaded})
+            }
+            Err(errs) => json!({"ok": false, "errs": errs.iter().map(|e| e.message.clone()).collect::<Vec<_>>()}),
+        }
+    }))
+}
+
+fn run_shared(root: PathBuf, entry: PathBuf, importer: PathBuf, idx: usize) -> Value {
+    wrap(guarded_timeout(LIMIT_MS, move || {
+        let ast = match parse_file(&importer) {
+            Ok(a) => a,
+            Err(e) => return json!({"ok": false, "err": e}),
+        };
+        let imps = imports_of(&ast);
+        let proj: Vec<Value> = ast
+            .declarations
+            .iter()
+            .filter(|d| matches!(d.node, Declaration::Import(_)))
+            .map(|d| project::decl(&d.node))
+            .collect();
+        let Some(imp) = imps.get(idx) else {
+            return json!({"ok": false, "err": format!("no import #{idx}"), "imports": proj});
+        };
+        let ib = importer.parent().unwrap_or(Path::new(".")).to_path_buf();
+        let eb = entry.parent().unwrap_or(Path::new(".")).to_path_buf();
+        let a = incan::frontend::module::resolve_import_path(&ib, imp);
+        let b = incan::frontend::module::resolve_import_path(&eb, imp);
+        let f = |x: Option<PathBuf>| match x {
+            Some(p) => json!(rel(&root, &p)),
+            None => Value::Null,
+        };
+        json!({"ok": true, "importer_base": f(a), "entry_base": f(b), "imports": proj})
+    }))
+}
+
+fn run_check(entry: String) -> Value {
+    wrap(guarded_timeout(LIMIT_MS, move || {
+        let mods = match incan::cli::commands::collect_modules(&entry) {
+            Ok(m) => m,
+            Err(e) => return json!({"ok": false, "stage": "collect", "errs": [{"msg": e.message}]}),
+        };
+        let Some(main) = mods.last() else {
+            return json!({"ok": false, "stage": "collect", "errs": [{"msg": "No modules found"}]});
+        };
+        let deps: Vec<(&str, &Program)> = mods[..mods.len() - 1].iter().map(|m| (m.name.as_str(), &m.ast)).collect();
+        let dep_files: Vec<String> = mods[..mods.len() - 1].iter().map(|m| file_id(&m.source)).collect();
+        let dep_names: Vec<String> = mods[..mods.len() - 1].iter().map(|m| m.name.clone()).collect();
+        let mut tc = TypeChecker::new();
+        match tc.check_with_imports(&main.ast, &deps) {
+            Ok(()) => json!({"ok": true, "deps": dep_files, "dep_names": dep_names}),
+            Err(errs) => json!({"ok": false, "stage": "check", "deps": dep_files, "dep_names": dep_names,
+                                "errs": errs.iter().map(project::diag).collect::<Vec<_>>()}),
+        }
+    }))
+}
+
+// ------------------------------------------------------------------ the real language server
+struct Noop;
+impl Wake for Noop {
+    fn wake(self: Arc<Self>) {}
+}
+type Fut = Pin<Box<dyn Future<Output = Result<Option<Response>, tower_lsp::ExitedError>> + Send>>;
+
+fn drain(socket: &mut ClientSocket, out: &mut Vec<Value>) {
+    let waker = Waker::from(Arc::new(Noop));
+    let mut cx = Context::from_waker(&waker);
+    while let Poll::Ready(Some(req)) = socket.poll_next_unpin(&mut cx) {
+        if req.method() == "textDocument/publishDiagnostics" {
+            let p = req.params().cloned().unwrap_or(Value::Null);
+            let diags = p["diagnostics"].as_array().cloned().unwrap_or_default();
+            out.push(json!({"uri": p["uri"], "version": p["version"],
+                "msgs": diags.iter().map(|d| d["message"].as_str().unwrap_or("").to_string()).collect::<Vec<_>>()}));
+        }
+    }
+}
+
+fn complete(
+    service: &mut LspService<incan::lsp::backend::IncanLanguageServer>,
+    socket: &mut ClientSocket,
+    req: Request,
+    pubs: &mut Vec<Value>,
+    deadline: std::time::Instant,
+) -> Result<Option<Response>, String> {
+    let mut f: Fut = Box::pin(service.call(req));
+    let waker = Waker::from(Arc::new(Noop));
+    let mut cx = Context::from_waker(&waker);
+    loop {
+        if let Poll::Ready(r) = f.as_mut().poll(&mut cx) {
+            drain(socket, pubs);
+            return r.map_err(|e| format!("{e}"));
+        }
+        drain(socket, pubs);
+        if std::time::Instant::now() > deadline {
+            return Err("LSP-NO-PROGRESS".into());
+        }
+    }
+}
+
+fn run_lsp(root: PathBuf, entry: PathBuf) -> Value {
+    wrap(guarded_timeout(LIMIT_MS + 1_000, move || {
+        let text = match std::fs::read_to_string(&entry) {
+            Ok(t) => t,
+            Err(e) => return json!({"tool_error": format!("read entry: {e}")}),
+        };
+        let deadline = std::time::Instant::now() + std::time::Duration::from_millis(LIMIT_MS);
+        let (mut service, mut socket) = LspService::new(incan::lsp::backend::IncanLanguageServer::new);
+        let mut pubs: Vec<Value> = Vec::new();
+        let init = Request::build("initialize").params(json!({"capabilities": {}})).id(1).finish();
+        if let Err(e) = complete(&mut service, &mut socket, init, &mut pubs, deadline) {
+            return json!({"tool_error": format!("initialize: {e}")});
+        }
+        let _ = complete(&mut service, &mut socket, Request::build("initialized").params(json!({})).finish(), &mut pubs, deadline);
+        pubs.clear();
+        let uri = format!("file://{}", entry.display());
+        let open = Request::build("textDocument/didOpen")
+            .params(json!({"textDocument": {"uri": uri, "languageId": "incan", "version": 1, "text": text}}))
+            .finish();
+        if let Err(e) = complete(&mut service, &mut socket, open, &mut pubs, deadline) {
+            if e == "LSP-NO-PROGRESS" {
+                return json!({"panic": "TIMEOUT", "at": "didOpen never completed"});
+            }
+            return json!({"tool_error": format!("didOpen: {e}")});
+        }
+        let prefix = format!("file://{}/", root.display());
+        let entry_rel = rel(&root, &entry);
+        let mut deps: Vec<Value> = Vec::new();
+        let mut entry_msgs: Vec<Value> = Vec::new();
+        let mut entry_published = 0;
+        for p in &pubs {
+            let u = p["uri"].as_str().unwrap_or("");
+            let r = u.strip_prefix(&prefix).map(|s| s.to_string()).unwrap_or_else(|| format!("OUTSIDE:{u}"));
+            if r == entry_rel && !p["version"].is_null() {
+                entry_published += 1;
+                entry_msgs = p["msgs"].as_array().cloned().unwrap_or_default();
+            } else {
+                deps.push(json!({"file": r, "msgs": p["msgs"]}));
+            }
+        }
+        json!({"ok": true, "deps": deps, "entry_published": entry_published, "entry_msgs": entry_msgs})
+    }))
+}
+
+fn op_run(req: &Value) -> Value {
+    if TIMED_OUT.load(Ordering::SeqCst) {
+        return json!({"skipped_after_timeout": true});
+    }
+    let Some(root) = req["root"].as_str() else {
+        return json!({"tool_error": "c14_run: no root"});
+    };
+    let root = PathBuf::from(root);
+    let entry = root.join(req["entry"].as_str().unwrap_or("main.incn"));
+    let importer = root.join(req["importer"].as_str().unwrap_or_else(|| req["entry"].as_str().unwrap_or("main.incn")));
+    let idx = req["import_idx"].as_u64().unwrap_or(0) as usize;
+    let want: Vec<String> = req["want"]
+        .as_array()
+        .map(|a| a.iter().filter_map(|x| x.as_str().map(String::from)).collect())
+        .unwrap_or_else(|| vec!["cli".into(), "lib".into(), "col".into(), "shared".into()]);
+    if !entry.exists() {
+        return json!({"tool_error": format!("c14_run: entry {} does not exist", entry.display())});
+    }
+    let es = entry.to_string_lossy().to_string();
+    let mut obs = Map::new();
+    for w in want {
+        if TIMED_OUT.load(Ordering::SeqCst) {
+            obs.insert(w, json!({"skipped_after_timeout": true}));
+            continue;
+        }
+        let v = match w.as_str() {
+            "cli" => run_cli(es.clone()),
+            "lib" => run_lib(es.clone()),
+            "col" => run_col(es.clone()),
+            "shared" => run_shared(root.clone(), entry.clone(), importer.clone(), idx),
+            "check" => run_check(es.clone()),
+            "lsp" => run_lsp(root.clone(), entry.clone()),
+            other => json!({"tool_error": format!("unknown want {other}")}),
+        };
+        if let Some(te) = v.get("tool_error") {
+            return json!({"tool_error": te.clone()});
+        }
+        obs.insert(w, v);
+    }
+    json!({"obs": obs})
+}
+
+fn op_parse_import(req: &Value) -> Value {
+    let src = req["src"].as_str().unwrap_or("").to_string();
+    let r = guarded_timeout(LIMIT_MS, move || {
+        let toks = match lexer::lex(&src) {
+            Ok(t) => t,
+            Err(e) => return json!({"ok": false, "stage": "lex", "errs": e.iter().map(project::diag).collect::<Vec<_>>()}),
+        };
+        match parser::parse(&toks) {
+            Ok(ast) => {
+                let proj: Vec<Value> = ast
+                    .declarations
+                    .iter()
+                    .filter(|d| matches!(d.node, Declaration::Import(_)))
+                    .map(|d| project::decl(&d.node))
+                    .collect();
+                json!({"ok": true, "imports": proj})
+            }
+            Err(e) => json!({"ok": false, "stage": "parse", "errs": e.iter().map(project::diag).collect::<Vec<_>>()}),
+        }
+    });
+    match r {
+        Ok(v) => json!({"obs": v}),
+        Err(e) => json!({"obs": panic_json(e)}),
+    }
+}
+
+pub fn dispatch(op: &str, req: &Value) -> Option<Value> {
+    Some(match op {
+        "c14_run" => op_run(req),
+        "c14_parse_import" => op_parse_import(req),
+        _ => return None,
+    })
 }
